@@ -205,6 +205,8 @@ pub async fn scenario(line: &str) -> String {
     "churn" => churn(&p).await,
     "fanin" => fanin(&p).await,
     "peerclose" => peerclose(&p).await,
+    "rchurn" => rchurn(&p).await,
+    "cancel" => cancel_scn(&p).await,
     "secure" => secure(&p).await,
     "framewise" => framewise(&p).await,
     "pubstall" => pubstall(&p).await,
@@ -2008,7 +2010,7 @@ async fn linger(p: &[&str]) -> String {
 /// injected anywhere. ops: `b<i><t|p|n>` bind socket i on tcp/ipc/inproc; `c<i>-<j>` connect i to j's first endpoint;
 /// `d<i>` connect i to a dead tcp port (retries); `h<i>` a raw peer connects to i's tcp endpoint and sends half a
 /// greeting; `s<i>` one send (SNDTIMEO 50 ms); `S<i>` a background task that keeps sending (blocks at the HWM);
-/// `R<i>` a background task blocked in recv(); `B<i>` SNDTIMEO -1 from here on; `o<i>` set an option; `m<i>` open a monitor; `x<i>` close() and wait;
+/// `R<i>` a background task blocked in recv(); `B<i>` SNDTIMEO -1 from here on; `o<i>` set an option; `m<i>` open a monitor; `M<i>` open a monitor of capacity 1 that is never read; `x<i>` close() and wait;
 /// `X<i>` close() from a background task; `D<i>` drop the handle; `T` Context::term() and wait; `t` term() from a
 /// background task; `w<ms>` sleep. Afterwards (term() is called if the script did not): close/term returned in bounded
 /// time and nothing panicked; operations on every socket fail promptly; every endpoint can be bound again; no task of the
@@ -2165,6 +2167,15 @@ async fn lifecycle_inner(types: Vec<String>, script: Vec<String>, rt: tokio::run
         let i = idx(arg);
         if let Some(s) = socks[i].as_ref() {
           if let Ok(Ok(m)) = tokio::time::timeout(Duration::from_secs(5), s.monitor_default()).await {
+            monitors.push(m);
+          }
+        }
+      }
+      "M" => {
+        // a monitor with room for ONE event that nobody reads: it is full from the first bind/connect on
+        let i = idx(arg);
+        if let Some(s) = socks[i].as_ref() {
+          if let Ok(Ok(m)) = tokio::time::timeout(Duration::from_secs(5), s.monitor(1)).await {
             monitors.push(m);
           }
         }
@@ -2417,6 +2428,65 @@ async fn churn(p: &[&str]) -> String {
   }
 }
 
+
+/// `rchurn <receiver options> <rounds>`
+/// A PUSH (Tokio backend) is bound; `rounds` times a fresh PULL with the given options connects, receives one message, is
+/// closed locally while the PUSH goes on sending to it for a moment. Every round must deliver its message: receive buffers
+/// that were in the kernel when a connection was closed have to come back.
+async fn rchurn(p: &[&str]) -> String {
+  let mut cfg = parse_kv(p[1]);
+  cfg.insert("type".into(), "PULL".into());
+  let rounds: usize = p[2].parse().unwrap();
+  let ctx = Context::new().expect("ctx");
+  let push = ctx.socket(SocketType::Push).unwrap();
+  let _ = set_i32(&push, o::SNDTIMEO, 300).await;
+  if push.bind("tcp://127.0.0.1:0").await.is_err() {
+    return "setup-error bind".into();
+  }
+  let ep = last_endpoint(&push).await;
+  for round in 0..rounds {
+    let pull = match make_socket(&ctx, &cfg).await {
+      Ok(s) => s,
+      Err(e) => return format!("setup-error {}", err_class(&e)),
+    };
+    let _ = set_i32(&pull, o::RCVTIMEO, 3000).await;
+    if pull.connect(&ep).await.is_err() {
+      return "setup-error connect".into();
+    }
+    // the first message waits for the connection
+    let mut sent = false;
+    for _ in 0..40 {
+      if push.send(Msg::from_vec(vec![round as u8; 600])).await.is_ok() {
+        sent = true;
+        break;
+      }
+      tokio::time::sleep(Duration::from_millis(25)).await;
+    }
+    if !sent {
+      return format!("ORACLE-FAIL key=rchurn round {}: the sender found no connection to send on", round);
+    }
+    match pull.recv().await {
+      Ok(m) if m.data().map(|d| d.len() == 600 && d[0] == round as u8).unwrap_or(false) => {}
+      Ok(_) => return format!("ORACLE-FAIL key=rchurn round {}: a damaged or stale message arrived", round),
+      Err(e) => return format!("ORACLE-FAIL key=rchurn round {}: nothing arrived ({})", round, err_class(&e)),
+    }
+    // the peer keeps sending while this side closes
+    let push2 = push.clone();
+    let feeder = tokio::spawn(async move {
+      for _ in 0..6 {
+        let _ = push2.send(Msg::from_vec(vec![0xEE; 600])).await;
+        tokio::time::sleep(Duration::from_millis(2)).await;
+      }
+    });
+    tokio::time::sleep(Duration::from_millis(3)).await;
+    let _ = tokio::time::timeout(Duration::from_secs(5), pull.close()).await;
+    let _ = feeder.await;
+    tokio::time::sleep(Duration::from_millis(40)).await;
+  }
+  let _ = tokio::time::timeout(Duration::from_secs(5), push.close()).await;
+  let _ = tokio::time::timeout(Duration::from_secs(12), ctx.term()).await;
+  "rchurn=ok".into()
+}
 
 /// `peerclose <options of the socket that closes> <options of the other socket>`
 /// A PUSH connects to a PULL, both see the handshake, then the PUSH is closed (LINGER 0, nothing queued). The PULL side must
@@ -2989,6 +3059,428 @@ async fn framewise(p: &[&str]) -> String {
   }
 }
 
+
+/// One poll of `fut`; between polls the caller decides what else happens. Returns the output if the future completed
+/// within `k` polls, `None` if it was still pending after the k-th poll - the future is then DROPPED.
+async fn poll_k_then_drop<T>(
+  fut: impl std::future::Future<Output = T>,
+  k: usize,
+  mut between: impl FnMut() -> std::pin::Pin<Box<dyn std::future::Future<Output = ()> + Send>>,
+) -> Option<T> {
+  let mut fut = Box::pin(fut);
+  for _ in 0..k {
+    let polled = std::future::poll_fn(|cx| std::task::Poll::Ready(fut.as_mut().poll(cx))).await;
+    if let std::task::Poll::Ready(v) = polled {
+      return Some(v);
+    }
+    between().await;
+  }
+  None
+}
+
+/// `cancel <tr=tcp|inproc,sndhwm=..,rcvhwm=..,sndtimeo=..> <sender type> <receiver type> <script>`
+/// One sender, one receiver, small high-water marks, the receiver reads only when the script says so - so calls park.
+/// Script (`;`-separated): `s<i>` send message i (three frames `i.0 i.1 i.2`, send_multipart) and wait for the result;
+/// `u<i>` the same as a single-frame send(); `c<i>:<k>` / `v<i>:<k>`: the same two calls, but the future is polled at
+/// most k times (2 ms apart) and then DROPPED; with a trailing `r` the receiver takes one message between polls, so the
+/// future gets to its later await points; `R` the receiver takes one message (recv_multipart); `F` the receiver takes
+/// one FRAME with recv(); `d:<k>` / `f:<k>`: a recv_multipart() / recv() future polled at most k times and dropped (with a
+/// trailing `s` the sender sends the next unsent message between polls); `w<ms>` sleep; `fill` send until a send is refused (or stays pending);
+/// `T<ms>` set SNDTIMEO now.
+/// Afterwards everything is drained and one more message is sent and received. Oracle: every message received is whole,
+/// none arrives twice, what send() accepted arrives, in order; what send() refused does not; a dropped send arrives whole
+/// or not at all; nothing the receiver had been given is lost by a dropped receive; the final exchange works.
+async fn cancel_scn(p: &[&str]) -> String {
+  let opts = parse_kv(p[1]);
+  let sty = p[2].to_string();
+  let rty = p[3].to_string();
+  let script: Vec<String> = p[4].split(';').filter(|x| !x.is_empty()).map(|x| x.to_string()).collect();
+  let transport = opts.get("tr").cloned().unwrap_or_else(|| "tcp".into());
+  let geti = |k: &str, d: i32| opts.get(k).and_then(|v| v.parse::<i32>().ok()).unwrap_or(d);
+  let ctx = Context::new().expect("ctx");
+  let snd = ctx.socket(socket_type(&sty)).unwrap();
+  let rcv = ctx.socket(socket_type(&rty)).unwrap();
+  let _ = set_i32(&snd, o::SNDHWM, geti("sndhwm", 2)).await;
+  let _ = set_i32(&rcv, o::RCVHWM, geti("rcvhwm", 2)).await;
+  let _ = set_i32(&snd, o::SNDTIMEO, geti("sndtimeo", 150)).await;
+  let _ = set_i32(&rcv, o::RCVTIMEO, 300).await;
+  if transport == "tcp" {
+    let _ = set_i32(&snd, o::SNDBUF, 4096).await;
+    let _ = set_i32(&rcv, o::RCVBUF, 4096).await;
+  }
+  if rty == "SUB" {
+    let _ = rcv.set_option_raw(o::SUBSCRIBE, b"").await;
+  }
+  if rty == "DEALER" && sty == "ROUTER" {
+    let _ = rcv.set_option_raw(o::ROUTING_ID, b"peer").await;
+    // a ROUTER that is not mandatory answers Ok and discards when the peer's queue is full: with the option set a send
+    // that is not accepted says so
+    let _ = set_i32(&snd, o::ROUTER_MANDATORY, 1).await;
+  }
+  let (ms, mr) = match (snd.monitor_default().await, rcv.monitor_default().await) {
+    (Ok(a), Ok(b)) => (a, b),
+    _ => return "setup-error monitor".into(),
+  };
+  let ep = if transport == "tcp" { "tcp://127.0.0.1:0".to_string() } else { format!("inproc://{}", unique_name("cancel")) };
+  if rcv.bind(&ep).await.is_err() {
+    return "setup-error bind".into();
+  }
+  let target = if transport == "tcp" { last_endpoint(&rcv).await } else { ep.clone() };
+  if snd.connect(&target).await.is_err() {
+    return "setup-error connect".into();
+  }
+  if transport == "tcp" {
+    let (ra, rb) = tokio::join!(wait_handshake(&ms, Duration::from_secs(3)), wait_handshake(&mr, Duration::from_secs(3)));
+    if ra != "ok" || rb != "ok" {
+      return "setup-error handshake".into();
+    }
+  }
+  tokio::time::sleep(Duration::from_millis(80)).await;
+  let size = opts.get("size").and_then(|v| v.parse::<usize>().ok()).unwrap_or(3000);
+  let mk = |i: usize, single: bool| -> Vec<Msg> {
+    let mut v = Vec::new();
+    if sty == "ROUTER" {
+      let mut idf = Msg::from_static(b"peer");
+      idf.set_flags(rzmq::MsgFlags::MORE);
+      v.push(idf);
+    }
+    let parts = if single { 1 } else { 3 };
+    for k in 0..parts {
+      let mut b = vec![(i % 251) as u8; size];
+      b[0] = i as u8;
+      b[1] = k as u8;
+      b[2] = parts as u8;
+      let mut m = Msg::from_vec(b);
+      if k + 1 < parts {
+        m.set_flags(rzmq::MsgFlags::MORE);
+      }
+      v.push(m);
+    }
+    v
+  };
+  #[derive(Clone, Copy, PartialEq, Debug)]
+  enum Fate {
+    Accepted,
+    Refused,
+    Dropped,
+  }
+  let mut fate: Vec<(usize, Fate)> = Vec::new();
+  let mut got: Vec<Vec<Msg>> = Vec::new(); // complete messages, in arrival order
+  let mut partial: Vec<Msg> = Vec::new(); // frames taken one by one
+  let mut problems: Vec<String> = Vec::new();
+  let mut next_auto = 200usize; // messages the script sends "between polls"
+  let mut late_sndtimeo: Option<i32> = None;
+  // one message (or one frame) taken by the receiver in the ordinary way
+  async fn take(rcv: &Socket, by_frame: bool, got: &mut Vec<Vec<Msg>>, partial: &mut Vec<Msg>) -> bool {
+    if by_frame {
+      match rcv.recv().await {
+        Ok(f) => {
+          let more = f.is_more();
+          partial.push(f);
+          if !more {
+            got.push(std::mem::take(partial));
+          }
+          true
+        }
+        Err(_) => false,
+      }
+    } else {
+      match rcv.recv_multipart().await {
+        Ok(fr) => {
+          partial.extend(fr);
+          if !partial.last().map(|f| f.is_more()).unwrap_or(false) {
+            got.push(std::mem::take(partial));
+          }
+          true
+        }
+        Err(_) => false,
+      }
+    }
+  }
+  for op in &script {
+    let (k, arg) = op.split_at(1);
+    match k {
+      "s" | "u" => {
+        let i: usize = arg.parse().unwrap();
+        let frames = mk(i, k == "u");
+        let r = if k == "u" && sty != "ROUTER" {
+          tokio::time::timeout(Duration::from_secs(5), snd.send(frames.into_iter().next().unwrap())).await
+        } else {
+          tokio::time::timeout(Duration::from_secs(5), snd.send_multipart(frames)).await
+        };
+        match r {
+          Ok(Ok(())) => fate.push((i, Fate::Accepted)),
+          Ok(Err(_)) => fate.push((i, Fate::Refused)),
+          Err(_) => {
+            problems.push(match late_sndtimeo {
+              Some(t) => format!("key=cancel-send-hangs send of message {} did not return in 5 s (SNDTIMEO {} ms set after the connection existed)", i, t),
+              None => format!("key=cancel-send-hangs send of message {} did not return in 5 s (SNDTIMEO {} ms)", i, geti("sndtimeo", 150)),
+            });
+            fate.push((i, Fate::Dropped));
+          }
+        }
+      }
+      // `T<ms>`: SNDTIMEO is changed now, while the connection exists
+      "T" => {
+        let t: i32 = arg.parse().unwrap();
+        let _ = set_i32(&snd, o::SNDTIMEO, t).await;
+        late_sndtimeo = Some(t);
+      }
+      "c" | "v" => {
+        let with_reads = arg.ends_with('r');
+        let a = arg.trim_end_matches('r');
+        let (is, ks) = a.split_once(':').unwrap();
+        let i: usize = is.parse().unwrap();
+        let polls: usize = ks.parse().unwrap();
+        let frames = mk(i, k == "v");
+        // the receiver's reads between polls happen on a task of their own and are collected afterwards
+        let (tx, mut rx) = tokio::sync::mpsc::unbounded_channel::<Vec<Msg>>();
+        let rcv2 = rcv.clone();
+        let between = move || -> std::pin::Pin<Box<dyn std::future::Future<Output = ()> + Send>> {
+          let rcv3 = rcv2.clone();
+          let tx2 = tx.clone();
+          Box::pin(async move {
+            if with_reads {
+              if let Ok(Ok(fr)) = tokio::time::timeout(Duration::from_millis(40), rcv3.recv_multipart()).await {
+                let _ = tx2.send(fr);
+              }
+            } else {
+              tokio::time::sleep(Duration::from_millis(2)).await;
+            }
+          })
+        };
+        let out = if k == "v" && sty != "ROUTER" {
+          poll_k_then_drop(snd.send(frames.into_iter().next().unwrap()), polls, between).await
+        } else {
+          poll_k_then_drop(snd.send_multipart(frames), polls, between).await
+        };
+        match out {
+          Some(Ok(())) => fate.push((i, Fate::Accepted)),
+          Some(Err(_)) => fate.push((i, Fate::Refused)),
+          None => fate.push((i, Fate::Dropped)),
+        }
+        while let Ok(fr) = rx.try_recv() {
+          partial.extend(fr);
+          if !partial.last().map(|f| f.is_more()).unwrap_or(false) {
+            got.push(std::mem::take(&mut partial));
+          }
+        }
+      }
+      "R" | "F" => {
+        let _ = take(&rcv, k == "F", &mut got, &mut partial).await;
+      }
+      "d" | "f" if op != "fill" => {
+        let with_sends = arg.ends_with('s');
+        let a = arg.trim_end_matches('s').trim_start_matches(':');
+        let polls: usize = a.parse().unwrap();
+        let snd2 = snd.clone();
+        let sent_between = std::sync::Arc::new(std::sync::Mutex::new(Vec::<(usize, bool)>::new()));
+        let sb = sent_between.clone();
+        let first_auto = next_auto;
+        let counter = std::sync::Arc::new(std::sync::atomic::AtomicUsize::new(first_auto));
+        let c2 = counter.clone();
+        let sty2 = sty.clone();
+        let between = move || -> std::pin::Pin<Box<dyn std::future::Future<Output = ()> + Send>> {
+          let snd3 = snd2.clone();
+          let sb2 = sb.clone();
+          let c3 = c2.clone();
+          let sty3 = sty2.clone();
+          Box::pin(async move {
+            if with_sends {
+              let i = c3.fetch_add(1, std::sync::atomic::Ordering::SeqCst);
+              let mut v = Vec::new();
+              if sty3 == "ROUTER" {
+                let mut idf = Msg::from_static(b"peer");
+                idf.set_flags(rzmq::MsgFlags::MORE);
+                v.push(idf);
+              }
+              for kk in 0..3u8 {
+                let mut b = vec![(i % 251) as u8; 64];
+                b[0] = i as u8;
+                b[1] = kk;
+                b[2] = 3;
+                let mut m = Msg::from_vec(b);
+                if kk < 2 {
+                  m.set_flags(rzmq::MsgFlags::MORE);
+                }
+                v.push(m);
+              }
+              let ok = matches!(tokio::time::timeout(Duration::from_secs(2), snd3.send_multipart(v)).await, Ok(Ok(())));
+              sb2.lock().unwrap().push((i, ok));
+              tokio::time::sleep(Duration::from_millis(15)).await;
+            } else {
+              tokio::time::sleep(Duration::from_millis(2)).await;
+            }
+          })
+        };
+        if k == "d" {
+          if let Some(Ok(fr)) = poll_k_then_drop(rcv.recv_multipart(), polls, between).await {
+            partial.extend(fr);
+            if !partial.last().map(|f| f.is_more()).unwrap_or(false) {
+              got.push(std::mem::take(&mut partial));
+            }
+          }
+        } else if let Some(Ok(f)) = poll_k_then_drop(rcv.recv(), polls, between).await {
+          let more = f.is_more();
+          partial.push(f);
+          if !more {
+            got.push(std::mem::take(&mut partial));
+          }
+        }
+        for (i, ok) in sent_between.lock().unwrap().iter() {
+          fate.push((*i, if *ok { Fate::Accepted } else { Fate::Refused }));
+        }
+        next_auto = counter.load(std::sync::atomic::Ordering::SeqCst);
+      }
+      "w" => tokio::time::sleep(Duration::from_millis(arg.parse().unwrap_or(1))).await,
+      // `fill`: send (ids 100..) until a send is refused: from here on calls meet back-pressure
+      "f" if op == "fill" => {}
+      _ => {}
+    }
+    if op == "fill" {
+      // (the option is not touched here: a SNDTIMEO that changes while connections exist is a scenario of its own, C14)
+      let unlimited = geti("sndtimeo", 150) < 0;
+      for i in 100..190usize {
+        let r = if unlimited {
+          // a send that waits without limit shows back-pressure by staying pending: give it 4 polls, then drop it
+          let idle = || -> std::pin::Pin<Box<dyn std::future::Future<Output = ()> + Send>> {
+            Box::pin(async { tokio::time::sleep(Duration::from_millis(15)).await })
+          };
+          match poll_k_then_drop(snd.send_multipart(mk(i, false)), 4, idle).await {
+            Some(x) => Ok(x),
+            None => {
+              fate.push((i, Fate::Dropped));
+              break;
+            }
+          }
+        } else {
+          tokio::time::timeout(Duration::from_secs(5), snd.send_multipart(mk(i, false))).await
+        };
+        match r {
+          Ok(Ok(())) => fate.push((i, Fate::Accepted)),
+          Ok(Err(_)) => {
+            fate.push((i, Fate::Refused));
+            break;
+          }
+          Err(_) => {
+            problems.push(format!("key=cancel-send-hangs send of message {} did not return in 5 s", i));
+            fate.push((i, Fate::Dropped));
+            break;
+          }
+        }
+      }
+    }
+  }
+  // drain: until nothing has arrived for a while
+  let mut idle = 0;
+  while idle < 3 {
+    if take(&rcv, false, &mut got, &mut partial).await {
+      idle = 0;
+    } else {
+      idle += 1;
+    }
+  }
+  // the final exchange: both sockets still work
+  let probe = 199usize;
+  let _ = set_i32(&snd, o::SNDTIMEO, 3000).await;
+  for attempt in 0..3usize {
+    let probe = probe - attempt; // a probe that was given up may still arrive: each attempt has its own number
+    match tokio::time::timeout(Duration::from_secs(5), snd.send_multipart(mk(probe, false))).await {
+      Ok(Ok(())) => {
+        fate.push((probe, Fate::Accepted));
+        break;
+      }
+      Ok(Err(e)) => {
+        problems.push(format!("key=cancel-unusable the send after the script is refused: {}", err_class(&e)));
+        break;
+      }
+      Err(_) => {
+        // does the receiver still find messages? then the drain above had ended early (a starved host) and the sender was
+        // rightly waiting for room: drain and try again. If nothing can be read, the sender is stuck.
+        let mut more = 0;
+        while take(&rcv, false, &mut got, &mut partial).await {
+          more += 1;
+        }
+        if more == 0 || attempt == 2 {
+          problems.push(format!(
+            "key=cancel-unusable the send after the script hangs (5 s; {} message(s) could still be read afterwards)",
+            more
+          ));
+          break;
+        }
+      }
+    }
+  }
+  let mut idle = 0;
+  while idle < 2 {
+    if take(&rcv, false, &mut got, &mut partial).await {
+      idle = 0;
+    } else {
+      idle += 1;
+    }
+  }
+  let _ = tokio::time::timeout(Duration::from_secs(3), snd.close()).await;
+  let _ = tokio::time::timeout(Duration::from_secs(3), rcv.close()).await;
+  let _ = tokio::time::timeout(Duration::from_secs(12), ctx.term()).await;
+  // --- oracle
+  let skip = if rty == "ROUTER" { 1 } else { 0 };
+  let mut seen: Vec<usize> = Vec::new();
+  if !partial.is_empty() {
+    problems.push(format!("key=cancel-torn {} frame(s) of an unfinished message were delivered and the rest never came", partial.len()));
+  }
+  for m in &got {
+    let shape: Vec<(u8, u8, u8, usize)> = m
+      .iter()
+      .skip(skip)
+      .map(|f| {
+        let b = f.data().unwrap_or(&[]);
+        (b.first().copied().unwrap_or(255), b.get(1).copied().unwrap_or(255), b.get(2).copied().unwrap_or(255), b.len())
+      })
+      .collect();
+    let whole = !shape.is_empty()
+      && shape.len() == shape[0].2 as usize
+      && shape.iter().enumerate().all(|(j, x)| x.0 == shape[0].0 && x.1 as usize == j && x.2 == shape[0].2)
+      && m.iter().skip(skip).enumerate().all(|(j, f)| f.is_more() == (j + 1 < shape.len()))
+      && m.iter().skip(skip).all(|f| f.data().map(|b| b[3..].iter().all(|x| *x == b[0] % 251 || *x == (b[0] as usize % 251) as u8)).unwrap_or(false));
+    if !whole {
+      problems.push(format!("key=cancel-torn a message arrived as the frames {:?}", shape.iter().map(|x| (x.0, x.1, x.2)).collect::<Vec<_>>()));
+      continue;
+    }
+    let id = shape[0].0 as usize;
+    if seen.contains(&id) {
+      problems.push(format!("key=cancel-duplicate message {} arrived twice", id));
+    }
+    seen.push(id);
+  }
+  let accepted: Vec<usize> = fate.iter().filter(|(_, f)| *f == Fate::Accepted).map(|(i, _)| *i).collect();
+  for i in &accepted {
+    if !seen.contains(i) {
+      problems.push(format!("key=cancel-lost message {} was accepted by send() and never arrived", i));
+    }
+  }
+  for (i, f) in &fate {
+    if *f == Fate::Refused && seen.contains(i) {
+      problems.push(format!("key=cancel-refused-delivered message {} arrived although its send() returned an error", i));
+    }
+  }
+  // order: accepted messages sent by the script's own task arrive in the order of their calls (messages sent between
+  // the polls of a receive come from another task and are only ordered among themselves)
+  let order: Vec<usize> = seen.iter().copied().filter(|i| accepted.contains(i) && *i < 190).collect();
+  let want: Vec<usize> = accepted.iter().copied().filter(|i| *i < 190).collect();
+  if order != want && problems.is_empty() {
+    problems.push(format!("key=cancel-order accepted {:?}, arrived {:?}", want, order));
+  }
+  if problems.is_empty() {
+    if std::env::var("VERIF_CANCEL_STATS").is_ok() {
+      let c = |w: Fate| fate.iter().filter(|(_, f)| *f == w).count();
+      return format!("cancel=ok accepted={} refused={} dropped={} arrived={}", c(Fate::Accepted), c(Fate::Refused), c(Fate::Dropped), seen.len());
+    }
+    "cancel=ok".into()
+  } else {
+    problems.truncate(4);
+    format!("ORACLE-FAIL {}", problems.join("; "))
+  }
+}
 
 /// `pubstall <sndhwm> <messages> <size>`
 /// A PUB socket has a healthy rzmq SUB and a raw TCP subscriber that subscribes to everything and then never reads.
